@@ -1,9 +1,21 @@
 use vek::ops::*;
 
+/// Reached only on executions that did NOT panic. Triggers a non-panic failure
+fn must_be_unreachable() { let p: *const u8 = core::ptr::null(); let _x = unsafe { *p }; }
+
 #[kani::proof]
-fn c17_clamped_u8() {
+#[kani::should_panic]
+fn c17_x_all_panic() {
     let v: u8 = kani::any(); let lo: u8 = kani::any(); let hi: u8 = kani::any();
-    kani::assume(lo <= hi);
+    kani::assume(lo > hi);
     let r = v.clamped(lo, hi);
-    assert!(r == if v < lo { lo } else if v > hi { hi } else { v });
+    must_be_unreachable();
+}
+#[kani::proof]
+#[kani::should_panic]
+fn c17_x_some_panic() {
+    let v: u8 = kani::any(); let lo: u8 = kani::any(); let hi: u8 = kani::any();
+    kani::assume(lo >= hi);
+    let r = v.clamped(lo, hi);
+    must_be_unreachable();
 }
